@@ -7,7 +7,7 @@ import re
 
 from ..callgraph import CallGraph
 from ..fold import Folder, Regex
-from ..model import AnalysisError, Repo
+from ..model import AnalysisError, Repo, parent_of
 from ..relang import Alphabet, Lang
 from ..report import Check
 from ..rules import find_calls
@@ -358,14 +358,26 @@ def rule_normal_form(ck: Check, repo: Repo, rid: str = "R9") -> None:
     # ... and a text with a LINE BREAK is written as one tag line plus a stray comment line: it is read back cut, and the
     # stray line is dropped by the next run
     breaks = []
+    weak: list = []
     for f in [an] + pre + [fn]:
         if f is None:
             continue
         for node in ast.walk(f):
             if isinstance(node, ast.If) and re.search(r"splitlines\(\)|'\\n' in |\"\\n\" in ", ast.unparse(node.test)) \
                     and any(isinstance(x, ast.Raise) and re.search(r"UsageError|BadParameter", ast.unparse(x)) for x in ast.walk(node)):
-                breaks.append(ast.unparse(node.test)[:80])
-    r.instance("multi-line-values-refused", {"tests": breaks}, q)
+                # a count comparison must already refuse TWO lines (the smallest value with a line break)
+                refuses_two = True
+                for cmp_ in ast.walk(node.test):
+                    if isinstance(cmp_, ast.Compare) and len(cmp_.ops) == 1 and isinstance(cmp_.comparators[0], ast.Constant) \
+                            and isinstance(cmp_.comparators[0].value, int) and "splitlines()" in ast.unparse(cmp_.left) and ast.unparse(cmp_.left).startswith("len("):
+                        k = cmp_.comparators[0].value
+                        op = type(cmp_.ops[0])
+                        refuses_two = {ast.Gt: 2 > k, ast.GtE: 2 >= k, ast.NotEq: 2 != k, ast.Lt: 2 < k, ast.LtE: 2 <= k, ast.Eq: 2 == k}.get(op, True)
+                if refuses_two:
+                    breaks.append(ast.unparse(node.test)[:80])
+                else:
+                    weak.append(ast.unparse(node.test)[:80])
+    r.instance("multi-line-values-refused", {"tests": breaks, "tests_that_admit_two_lines": weak}, q)
     if not breaks:
         r.violation(repo.qualname_of(an) if an is not None else q, "a --copyright / --contributor value with a line break is accepted",
                     "`reuse annotate --contributor $'Ann\\nZed' -l MIT a.py`: writes `# SPDX-FileContributor: Ann` and a bare `# Zed` line; the"
@@ -418,6 +430,52 @@ def rule_normal_form(ck: Check, repo: Repo, rid: str = "R9") -> None:
             raise AnalysisError(f"get_reuse_info: flow of {field} passes a call this rule does not model ({via})")
 
 
+def rule_merge_fixed_point(ck: Check, repo: Repo, rid: str = "R10") -> None:
+    """With --merge-copyrights the second run merges what the first run wrote.  The first run's output is only left alone
+    when it already is in merged form, i.e. when EVERY path of create_header - also the one without an existing header -
+    passes the copyright lines through merge_copyright_lines before they are rendered."""
+    r = ck.rule(rid, "--merge-copyrights: the lines written are in merged form on every path (also when no header existed)")
+    q = "reuse.header.create_header"
+    fn = repo.func(q)
+    ck.analysed_fn(q)
+    hdr = "header"
+    calls = [c for c in ast.walk(fn) if isinstance(c, ast.Call) and ast.unparse(c.func).split(".")[-1] == "merge_copyright_lines"]
+    r.floor(1, "merge_copyright_lines calls in create_header", got=len(calls))
+
+    def guards(node):
+        out = []
+        cur = node
+        while True:
+            par = parent_of(cur)
+            if par is None or par is fn:
+                break
+            if isinstance(par, ast.If):
+                in_body = any(cur is x or cur in list(ast.walk(x)) for x in par.body)
+                out.append((ast.unparse(par.test), in_body))
+            cur = par
+        return out
+
+    covered_without_header = False
+    covered_with_header = False
+    for c in calls:
+        g = guards(c)
+        needs_header = any(re.fullmatch(rf"{hdr}( is not None)?", t) and pos for t, pos in g)
+        needs_no_header = any(re.fullmatch(rf"{hdr}( is not None)?", t) and not pos for t, pos in g) or \
+            any(re.fullmatch(rf"not {hdr}|{hdr} is None", t) and pos for t, pos in g)
+        r.instance(f"merge@{c.lineno - fn.lineno}", {"guards": [f"{'' if pos else 'else of '}{t}" for t, pos in g]}, q)
+        if not needs_header:
+            covered_without_header = True
+        if not needs_no_header:
+            covered_with_header = True
+    if not covered_with_header:
+        r.violation(q, "existing notices are not merged", "no merge_copyright_lines call on the path with an existing header", repo.loc(fn))
+    if not covered_without_header:
+        r.violation(q, "the first run writes the request unmerged, the second run merges it",
+                    "merge_copyright_lines is only reached under `if header:` - `reuse annotate -c Jane -l MIT -y 2020-2022 --merge-copyrights a.py`"
+                    " writes `2020-2022 Jane`; the same command again rewrites the line to `2020 - 2022 Jane` (the file is not byte-identical"
+                    " after the second run)", repo.loc(calls[0]) if calls else repo.loc(fn))
+
+
 def run(ck: Check, repo: Repo) -> None:
     ck.explanation = (
         "R1 order taint on everything reachable from annotate: no value whose order comes from a set or the file"
@@ -439,3 +497,4 @@ def run(ck: Check, repo: Repo) -> None:
     from . import c20
     c20.rule_get_year(ck, repo, "R7")
     rule_normal_form(ck, repo)
+    rule_merge_fixed_point(ck, repo)
